@@ -14,6 +14,7 @@ use std::cell::Cell;
 thread_local! {
     static BUDGET: Cell<u64> = const { Cell::new(0) };
     static USED: Cell<u64> = const { Cell::new(0) };
+    static ABORT: Cell<bool> = const { Cell::new(false) };
 }
 
 /// Payload of the unwind started by [tick](self::tick) when the armed budget is exceeded.
@@ -29,6 +30,15 @@ pub struct FuelExhausted {
 pub fn arm(budget: u64) {
     BUDGET.with(|b| b.set(budget));
     USED.with(|u| u.set(0));
+    ABORT.with(|a| a.set(false));
+}
+
+/// Like [arm](self::arm), for code that runs below an `extern "C"` frame, which an unwind cannot
+/// cross: when the budget is exceeded `tick` writes a `VERIF-FUEL-EXHAUSTED` line to stderr and
+/// aborts the process, so the harness can tell a loop from a panic.
+pub fn arm_abort(budget: u64) {
+    arm(budget);
+    ABORT.with(|a| a.set(true));
 }
 
 /// Disarms the calling thread's counter and returns the number of ticks counted since `arm`.
@@ -56,6 +66,10 @@ pub fn tick(site: &'static str) {
     });
     if used > budget {
         BUDGET.with(|b| b.set(0));
+        if ABORT.with(|a| a.get()) {
+            eprintln!("VERIF-FUEL-EXHAUSTED site={site} used={used}");
+            std::process::abort();
+        }
         std::panic::resume_unwind(Box::new(FuelExhausted { site, used }));
     }
 }
